@@ -16,8 +16,10 @@ Shapes_cli_validate_manifest == {"celConditionBad", "celPathNonBool", "duplicate
 Shapes_objectset_status == {"absent", "condIntValues", "condNoReason", "condNoStatus", "condNoType", "condNotAMap", "condNull", "condOGString", "condsNotAList", "curIntValues", "curNoMessage", "curNoReason", "curNoStatus", "curNoType", "nestedDeep", "notAMap", "ogFloat", "ogString", "wellFormed"}
 Shapes_oci_import == {"absolutePath", "badSecondHeader", "dotdot", "duplicate", "emptyLayer", "garbage", "outsideDir", "streamError", "truncated", "valid"}
 Shapes_render_condmap == {"badLine2", "empty", "emptyLeft", "emptyRight", "noArrow", "onlySpaces", "twoLines", "valid"}
+Shapes_render_include == {"finiteDepth", "mutualRecursion", "recurseAfterLeaf", "recurseTwice", "selfRecursion"}
 Shapes_render_manifest == {"celConditionBad", "celPathNonBool", "duplicatePhases", "emptyFile", "noPhases", "noScopes", "notYAML", "probeNoSelector", "wrongKind"}
 Shapes_render_object == {"annotationsStr", "celAnnotBad", "celAnnotNonBool", "labelsList", "noKind", "noName", "notAMap", "tmplRecursion", "unknownPhase"}
+Shapes_template_include == {"finiteDepth", "mutualRecursion", "recurseAfterLeaf", "recurseTwice", "selfRecursion"}
 Shapes_template_output == {"badTemplate", "emptyOutput", "noKind", "noName", "notAMap", "notYAML", "scalar"}
 Shapes_template_source_item == {"destClash", "destDotOnly", "destNested", "destNoDot", "emptyDest", "emptyKey", "keyBadJSONPath", "keyBraces", "keyMissing", "keyNoDot", "valid"}
 Shapes_template_target_status == {"absent", "condIntValues", "condNoReason", "condNoStatus", "condNoType", "condNotAMap", "condNull", "condOGString", "condsNotAList", "curIntValues", "curNoMessage", "curNoReason", "curNoStatus", "curNoType", "nestedDeep", "notAMap", "ogFloat", "ogString", "wellFormed"}
@@ -29,6 +31,8 @@ Rows == { <<"cli-tree-condmap", s>> : s \in Shapes_cli_tree_condmap } \cup
         { <<"cli-validate-manifest", s>> : s \in Shapes_cli_validate_manifest } \cup
         { <<"objectset-status", s>> : s \in Shapes_objectset_status } \cup
         { <<"oci-import", s>> : s \in Shapes_oci_import } \cup
+        { <<"render-include", s>> : s \in Shapes_render_include } \cup
+        { <<"template-include", s>> : s \in Shapes_template_include } \cup
         { <<"render-condmap", s>> : s \in Shapes_render_condmap } \cup
         { <<"render-manifest", s>> : s \in Shapes_render_manifest } \cup
         { <<"render-object", s>> : s \in Shapes_render_object } \cup
